@@ -896,6 +896,35 @@ func ruleC09Frame(r *Run) {
 			}
 		})
 		r.Check(rule, FuncName(disp)+"$recover:no re-panic", cl.Pos(), !rep, "the recovered panic is not raised again")
+		// the hook is the last user code of a panicking request: "no later handler runs". Anything else in the
+		// deferred closure that can run a handler or another hook (OnError on the collected errors, a shared
+		// "finish the response" helper) runs after the panic — and a panic inside it escapes the frame
+		var extra []ssa.Instruction
+		eachInstr(cl, func(in ssa.Instruction) {
+			c, ok := in.(ssa.CallInstruction)
+			if !ok || in == h {
+				return
+			}
+			if _, isDefer := in.(*ssa.Defer); isDefer {
+				return
+			}
+			if isDynUser(c) {
+				if _, isFn := c.Common().Value.Type().Underlying().(*types.Signature); isFn {
+					extra = append(extra, in)
+				}
+				return
+			}
+			if sc := staticCallee(c); sc != nil && userFn[sc] {
+				extra = append(extra, in)
+			}
+		})
+		detail := "the panic hook is the only call in the recovering closure that can run user code"
+		pos := cl.Pos()
+		if len(extra) > 0 {
+			pos = w.InstrPos(extra[0])
+			detail = fmt.Sprintf("besides the panic hook the recovering closure makes %d more call(s) that can run user code (first: %s): a handler or the OnError hook runs for a request whose chain already ended in a panic, after the hook has rendered its answer, and a panic in it escapes ServeHTTP although a hook is installed", len(extra), shortCanon(canon(extra[0].(ssa.CallInstruction).Common().Value)))
+		}
+		r.Check(rule, FuncName(disp)+"$recover:hook is last user code", pos, len(extra) == 0, detail)
 	}
 }
 
